@@ -66,7 +66,11 @@ TraceReturn == /\ IsEvent("return") /\ ~Ev.panic /\ ReturnCore(Ev.err, IF CheckK
 \* hook "result_write" (C19): the result map is written with the engine's lock held
 TraceResWrite == IsEvent("reswrite") /\ Ev.locked = 1 /\ UNCHANGED <<vars, ph, ps>>
 
-TraceProper == TraceSession \/ TraceBegin \/ TraceStart \/ TraceEnd \/ TraceReturn \/ TraceResWrite
+\* end of a session: a result map handed back earlier is compared with the copy taken when its call returned
+\* ("nothing from an earlier call survives" also means that a later call does not write into an earlier map)
+TraceFrozen == IsEvent("frozen") /\ Ev.same /\ phase \in {"idle", "returned"} /\ UNCHANGED <<vars, ph, ps>>
+
+TraceProper == TraceSession \/ TraceBegin \/ TraceStart \/ TraceEnd \/ TraceReturn \/ TraceResWrite \/ TraceFrozen
 
 \* Exec is deterministic once the event arguments are bound, so "no action
 \* explains line l" is a property of the single state at position l.  The
